@@ -99,6 +99,42 @@ func programs() []Case {
 			}
 		}
 	}
+	// batched creates: CreateInBatches(arg, size) and Session{CreateBatchSize: size}.Create(arg)
+	for _, op := range []string{"create_batches", "create_batchsize"} {
+		for _, ls := range [][2]int{{1, 2}, {2, 2}, {3, 2}, {4, 2}, {5, 2}, {5, 3}, {4, 3}} {
+			for _, sh := range []string{"ptr_slice", "ptr_slice_ptr", "slice_val"} {
+				for _, kids := range []string{"none", "pet"} {
+					for _, outer := range []string{"implicit", "begin"} {
+						for _, mode := range []string{"hooks", "skiphooks"} {
+							if mode == "skiphooks" && (kids != "none" || outer != "implicit") {
+								continue
+							}
+							add(Case{Op: op, Shape: sh, Len: ls[0], Batch: ls[1], Kids: kids, PtrKids: kids != "none" && sh == "ptr_slice_ptr", Mode: mode, Outer: outer})
+						}
+					}
+				}
+			}
+		}
+	}
+	// graphs with shared records (self-referential many2many, root type Node)
+	for _, g := range []string{"chain", "triangle", "diamond", "fan3", "cycle", "two_roots", "two_roots_tri"} {
+		for _, preset := range []bool{false, true} {
+			for _, op := range []string{"create", "save_new"} {
+				if preset && op == "save_new" {
+					continue // Save of a non-zero, non-existing key: outside the alphabet
+				}
+				for _, outer := range []string{"implicit", "begin"} {
+					for _, mode := range []string{"hooks", "skiphooks"} {
+						sh, n := "ptr_struct", 1
+						if strings.HasPrefix(g, "two_roots") {
+							sh, n = "ptr_slice_ptr", 2
+						}
+						add(Case{Op: op, Shape: sh, Len: n, Kids: "none", Mode: mode, Outer: outer, Graph: g, Preset: preset})
+					}
+				}
+			}
+		}
+	}
 	// outside the alphabet proper: non-addressable arguments must be rejected
 	for _, op := range []string{"create", "save_new", "save_existing", "update", "delete"} {
 		for _, sh := range []string{"val_struct", "val_array"} {
@@ -120,6 +156,19 @@ func tags(c Case, x *mc.Exec) []string {
 		c.Op + "/" + c.Shape + "/kids=" + c.Kids,
 		c.Op + "/mode=" + c.Mode,
 		c.Op + "/outer=" + c.Outer,
+	}
+	if c.Batch > 0 {
+		t = append(t, fmt.Sprintf("%s/len=%d/batch=%d", c.Op, c.Len, c.Batch))
+	}
+	if c.Graph != "" {
+		t = append(t, fmt.Sprintf("%s/graph=%s/preset=%v", c.Op, c.Graph, c.Preset))
+		// input-side predicates of the two defects found on the unchanged tree
+		switch {
+		case c.Graph == "cycle":
+			t = append(t, "graph-cycle-leads-back-to-the-operations-own-record")
+		case !c.Preset && (c.Graph == "diamond" || c.Graph == "two_roots" || c.Graph == "two_roots_tri"):
+			t = append(t, "graph-new-record-without-key-shared-by-two-parents-of-one-association-batch")
+		}
 	}
 	if x != nil {
 		for i, ch := range x.Choices {
@@ -203,7 +252,7 @@ func (cx *ctx) check(w *worker, c Case, x *mc.Exec, o *Obs) {
 			}
 			roots := map[string]bool{}
 			for _, ev := range o.Log {
-				if ev.Table == "owners" {
+				if isRootTable(ev.PTable) {
 					roots[ev.Ident] = true
 				}
 			}
@@ -230,6 +279,9 @@ func (cx *ctx) check(w *worker, c Case, x *mc.Exec, o *Obs) {
 	for _, f := range fs {
 		kinds = append(kinds, f.Kind)
 		sb.WriteString("* " + f.Kind + ": " + f.Detail + "\n")
+	}
+	if os.Getenv("VERIF_C13_LIST") != "" {
+		fmt.Printf("LIST %s | fail=%v | %s\n", c, x.Trace(), kinds[0])
 	}
 	msg := fmt.Sprintf("%s\nfailing hooks: %v\n%s%s", kinds[0], x.Trace(), sb.String(), o.describe())
 	cx.run.Violation(tags(c, x), msg, Replay{Case: c, Choices: x.ChoiceInts(), Trace: x.Trace(), Readable: c.String()})
@@ -387,13 +439,14 @@ func main() {
 	run.Assume("children held by a parent of an update/Save(&existing) may or may not be saved; if any statement or hook of the child table appears, all its records must get their hooks")
 	run.Assume("queries have no transaction of their own: AfterFind must see the handle's pool (or the caller's transaction); writes made by a failing AfterFind outside a caller's transaction are not expected to be undone")
 	run.Assume("inside a caller's transaction (db.Begin) the harness acts as the caller: it rolls back when the operation returns an error; gorm is not expected to undo partial effects inside a transaction it does not own")
-	run.Assume("CreateInBatches (one hook phase sequence per batch) is not in the alphabet")
+	run.Assume("batched creates (CreateInBatches, Session{CreateBatchSize}.Create): the phases of batch k precede those of batch k+1; the whole call must be one transaction")
+	run.Assume("Node graphs (self-referential many2many): records reached through Peers are one phase group (nodes:nested) between the root's statement and the root's after-hooks; nesting levels are not ordered against each other")
 	run.Assume("phases of different child tables (has-one vs has-many) are not ordered by the property; Delete with Select(associations) and preloaded children's addresses (temporary values, identified by primary key) are outside the identity check")
 	run.Assume("hook receivers are pointer receivers; hooks detect their execution through tx.Logger, the call chain is unchanged")
 	cov := map[string]interface{}{
 		"evaluations":                         st.executions,
 		"distinct_nontrivial":                 cx.distinct.Len(),
-		"rule":                                fmt.Sprintf("every program of {create,save(new),save(existing),update,updates(struct),updates(map),delete,find,first} x {&T,&[]T,[]T,[]*T,&[]*T,&[N]T} x len 0..3 x children {none,has-one,has-many(2),both} (by value and by pointer) x {hooks,SkipHooks session,UpdateColumn(s)} x {gorm's own transaction, caller's transaction}, each explored by E1 with a choice point at every hook invocation up to %d failing hooks; non-trivial = distinct (program, failing-hook set) executions in which at least one hook invocation was logged and the whole oracle (once per record, order relative to the driver-log statement, pool/transaction identity, error, later phases, rollback / stored values) was evaluated", bound),
+		"rule":                                fmt.Sprintf("every program of {create,save(new),save(existing),update,updates(struct),updates(map),delete,find,first} x {&T,&[]T,[]T,[]*T,&[]*T,&[N]T} x len 0..3 x children {none,has-one,has-many(2),both} (by value and by pointer) x {hooks,SkipHooks session,UpdateColumn(s)} x {gorm's own transaction, caller's transaction}; plus CreateInBatches / Session{CreateBatchSize}.Create with (len,size) in {(1,2),(2,2),(3,2),(4,2),(5,2),(4,3),(5,3)}; plus Create/Save of self-referential many2many graphs with shared pointers (chain, triangle, diamond, fan3, cycle, two roots sharing a peer, two roots + triangle; new records with and without preset keys); each explored by E1 with a choice point at every hook invocation up to %d failing hooks; non-trivial = distinct (program, failing-hook set) executions in which at least one hook invocation was logged and the whole oracle (once per record, order relative to the driver-log statement, pool/transaction identity, error, later phases, rollback / stored values) was evaluated", bound),
 		"samples":                             cx.samples.List(),
 		"exhaustive":                          exhaustive,
 		"programs":                            len(progs),
